@@ -9,7 +9,7 @@ that hold for every `tol` say so, statements that need exact comparisons are sta
 with a proved counterexample for `tol > 0`.  Vocabulary (`Sol`, `Canon`, `Feasible`, `ObjInv`,
 `basicSolution`): `Rooc/TabSem.lean`.
 -/
-import Rooc.Proofs.Bland6
+import Rooc.Proofs.TwoPhase5
 import Mathlib.Algebra.Order.Field.Rat
 import Mathlib.Tactic.NormNum
 namespace Rooc.Props.C14
@@ -155,6 +155,45 @@ theorem phase1_nonzero_infeasible_partial (tol : K) (htol : 0 < tol) (sm : StdMo
     (hx : ∀ i, i < sm.rows.length → dot (row (sm.rows.map (·.coeffs)) i) x = nth (sm.rows.map (·.rhs)) i)
     (hnn : ∀ v ∈ x, 0 ≤ v) : 1 ≤ x.sum :=
   Phase1.infeasible_report tol htol sm hrows stallExtra limit h hv x hxl hx hnn
+
+/-- **two_phase_start_canonical_partial.**  The tableau returned by `into_tableau_two_phase` — phase 1, artificial
+drive-out, redundant-row drop, removal of the artificial columns, cost restoration — is a canonical feasible tableau
+OF the standard form: canonical form (for the number of rows that survive), the objective row of the standard form
+represented by `(c, value)`, exactly the solution set of `A x = b`, non-negative basic solution, sign flip and offset
+copied.  PARTIAL: `tol > 0` and three decidable facts about the run — the phase-1 result has value EXACTLY `0` (the
+code only tests `|v| < tol`) and a non-negative basic solution (`steps_feasible_monotone` guarantees it for exact
+comparisons only), and the rows the drive-out loop marks as redundant have structural entries EXACTLY `0` in its
+result (the code only tests `|a| < tol`; cf. the known finding `C14-absolute-tolerance-on-unscaled-data`). -/
+theorem two_phase_start_canonical_partial {tol : K} (ht : 0 < tol) (sm : StdModel K) (stallExtra phase1Limit : Nat)
+    (hrows : ∀ r ∈ sm.rows, r.coeffs.length = sm.vars.length) (hobj : sm.objective.length = sm.vars.length)
+    (hv : (TwoPhase.phase1Final tol stallExtra phase1Limit sm).value = 0)
+    (hF : Feasible (TwoPhase.phase1Final tol stallExtra phase1Limit sm))
+    (hd : ∀ r ∈ (TwoPhase.driveOutResult tol stallExtra phase1Limit sm).2.2.2, ∀ j, j < sm.vars.length →
+      nth (row (TwoPhase.driveOutResult tol stallExtra phase1Limit sm).1 r) j = 0)
+    {T : Tab K} (h : twoPhase tol stallExtra phase1Limit sm = .ok T) :
+    (∃ m', Canon T m' sm.vars.length) ∧ ObjInv T sm.objective ∧ (∀ x, Sol T x ↔ Sol (Start.stdTab sm) x) ∧
+      Feasible T ∧ T.flip = sm.flip ∧ T.offset = sm.offset :=
+  TwoPhase.twoPhase_canonical ht sm stallExtra phase1Limit hrows hobj hv hF hd h
+
+/-- `into_tableau` IS `into_tableau_two_phase` whenever the direct start is not available. -/
+theorem into_tableau_two_phase_branch (tol : K) (stallExtra phase1Limit : Nat) (sm : StdModel K)
+    (hnd : ¬ (sm.rows.length ≤ (independentColumns tol sm.vars.length (sm.rows.map (·.coeffs))).length ∧
+      (selectPerRow sm.rows.length (independentColumns tol sm.vars.length (sm.rows.map (·.coeffs)))).length = sm.rows.length)) :
+    intoTableau tol stallExtra phase1Limit sm = twoPhase tol stallExtra phase1Limit sm := by
+  unfold intoTableau
+  simp only [ge_iff_le]
+  split
+  · rename_i h1
+    split
+    · rfl
+    · rename_i h2
+      exfalso; apply hnd
+      refine ⟨h1, ?_⟩
+      have hle : (selectPerRow sm.rows.length (independentColumns tol sm.vars.length (sm.rows.map (·.coeffs)))).length ≤ sm.rows.length := by
+        unfold selectPerRow
+        exact le_trans (List.length_filterMap_le _ _) (by simp)
+      omega
+  · rfl
 
 /-- **bland_no_cycle_partial.**  Bland's rule as implemented by `find_h(use_bland)` / `find_t` does not cycle:
 along any run of Bland steps of `step_inner` (no preference list) the basis never returns to a basis set it
@@ -323,6 +362,55 @@ example : Bland.BlandRun (1/100000 : ℚ) 1 2 1 [-1, 0] (fun p => if p = 0 then 
     rcases p with _ | p
     · exact hfeas _ rfl (by simp [T0, nth])
     · exact hfeas _ (by simp [T0']) (by simp [T0', nth])
+
+/-- `min x₀` with the row `−x₀ = 0`: the only column is negative, so `into_tableau` needs phase 1. -/
+def smTP : StdModel ℚ := { vars := ["x0"], objective := [1], offset := 0, flip := false, rows := [{ coeffs := [-1], rhs := 0 }] }
+/-- its phase-1 tableau (optimal at once, value 0). -/
+def P1 : Tab ℚ := { c := [1, 0], a := [[-1, 1]], b := [0], basis := [1], value := 0, offset := 0, flip := false }
+/-- what `into_tableau_two_phase` returns for it (the artificial variable is driven out by a pivot on `−1`). -/
+def TP : Tab ℚ := { c := [0], a := [[1]], b := [0], basis := [0], value := 0, offset := 0, flip := false }
+
+theorem smTP_phase1 : phase1Tab smTP = P1 := by
+  simp [phase1Tab, smTP, P1, Standardize.resize, subRow, List.zipIdx, List.range, List.range.loop]
+
+theorem smTP_phase1Final : TwoPhase.phase1Final (1/100000 : ℚ) 1 10 smTP = P1 := by
+  unfold TwoPhase.phase1Final
+  rw [smTP_phase1]
+  simp [solve, solveLoop, stepInner, isOptimal, P1, Tol.fge, Tol.feq]
+
+theorem smTP_driveOut : TwoPhase.driveOutResult (1/100000 : ℚ) 1 10 smTP = ([[1, -1]], [0], [0], []) := by
+  have h1 : |(1:ℚ)| = 1 := abs_one
+  have h2 : (100000:ℚ)⁻¹ ≤ 1 := by norm_num
+  unfold TwoPhase.driveOutResult
+  rw [smTP_phase1Final]
+  simp [driveOut, P1, smTP, List.range, List.range.loop, Tol.fne, Tol.feq, nth, row, rowDiv, h1, h2]
+
+theorem smTP_twoPhase : twoPhase (1/100000 : ℚ) 1 10 smTP = .ok TP := by
+  have h1 : |(1:ℚ)| = 1 := abs_one
+  have h2 : (100000:ℚ)⁻¹ ≤ 1 := by norm_num
+  have hp := smTP_phase1Final
+  unfold TwoPhase.phase1Final at hp
+  have hs : (solve (1/100000 : ℚ) 1 10 (List.map (fun x => x + smTP.vars.length) (List.range smTP.rows.length))
+      (phase1Tab smTP)).result = .ok () := by
+    rw [smTP_phase1]
+    simp [solve, solveLoop, stepInner, isOptimal, P1, Tol.fge, Tol.feq]
+  unfold twoPhase
+  simp only [hs, hp]
+  simp [P1, TP, smTP, driveOut, restoreCosts, List.range, List.range.loop, Tol.fne, Tol.feq, nth, row, rowDiv, rowSubMul,
+    h1, h2, List.zipIdx]
+
+/-- the hypotheses of `two_phase_start_canonical_partial` are satisfiable (tolerance `1e-5`), and it applies: the returned
+tableau `TP` is canonical for `smTP`. -/
+example : (∃ m', Canon TP m' smTP.vars.length) ∧ ObjInv TP smTP.objective ∧
+    (∀ x, Sol TP x ↔ Sol (Start.stdTab smTP) x) ∧ Feasible TP ∧ TP.flip = smTP.flip ∧ TP.offset = smTP.offset := by
+  refine two_phase_start_canonical_partial (tol := (1/100000 : ℚ)) (by norm_num) smTP 1 10 ?_ rfl ?_ ?_ ?_ smTP_twoPhase
+  · intro r hr; simp [smTP] at hr; subst hr; rfl
+  · rw [smTP_phase1Final]; rfl
+  · rw [smTP_phase1Final]
+    intro i hi
+    have : i = 0 := by simp [P1] at hi; omega
+    subst this; simp [P1, nth]
+  · rw [smTP_driveOut]; simp
 
 end examples
 
